@@ -42,7 +42,7 @@ FAMILIES: dict[str, dict] = {
     "optimizer_skip": {"grammars": ['s = @{ (!"a" ~ ANY)* }\na = @{ (!s ~ ANY)* ~ "x" }', 'r = @{ (!("b" | "ab") ~ ANY)* }\na = { r ~ ANY* }', 'nl = _{ "\\n" | "\\r\\n" }\nr = @{ (!nl ~ ANY)* }\na = { r ~ nl? ~ r }', 'WHITESPACE = _{ " " }\na = { (!"b" ~ ANY)* ~ "b"? }', 'a = { (!("x" ~ "y") ~ ANY)* ~ ANY* }', 'WHITESPACE = _{ " " }\nr = @{ (!"b" ~ ANY)* }\na = { r ~ "b" }'], "alphabet": "ab \n\rxy", "n": 4},
     "optimizer_squash": {"grammars": ['y = { "y" }\nb = _{ "x" | y }\na = { (b | "z")+ }', 'a = { ("x" | "xy") ~ "y"? ~ "z" }', 'a = { (^"xy" | "xyz") ~ "z"? }', 'a = { ("xy" | "x" | \'y\'..\'z\') ~ "z" }', 'b = _{ "x" | "xy" }\na = { b ~ "y" }', 'a = { (ASCII_DIGIT | "x" | "xy")+ }'], "alphabet": "xyzXY1", "n": 4},
     "optimizer_ranges": {"grammars": ["a = { ('w'..'z' | 'x'..'y')+ }", "a = { (ASCII_ALPHANUMERIC | 'x'..'y')+ ~ \"!\"? }", "a = { ('x'..'y' | 'w'..'z' | \"!\")+ }"], "alphabet": "wxyz!", "n": 3},
-    "optimizer_inline": {"grammars": ['c = { "x" }\ns = _{ c ~ "y" }\na = { #tt=s ~ s? }', 'c = { "x" }\na = { #tt=(c)+ }', 's = _{ "x" ~ s? ~ "y" }\na = { s }', 'WHITESPACE = _{ " " }\ns = _{ "x" ~ "y" }\na = @{ s ~ s }'], "alphabet": "xy ", "n": 5},
+    "optimizer_inline": {"grammars": ['COMMENT = _{ "x" ~ "y" }\na = { COMMENT }', 'c = { "x" }\ns = _{ c ~ "y" }\na = { #tt=s ~ s? }', 'c = { "x" }\na = { #tt=(c)+ }', 's = _{ "x" ~ s? ~ "y" }\na = { s }', 'WHITESPACE = _{ " " }\ns = _{ "x" ~ "y" }\na = @{ s ~ s }'], "alphabet": "xy ", "n": 5},
     "optimizer_unicode": {"grammars": ['a = { (LETTER | "_") ~ (LETTER | ASCII_DIGIT | "_")* }', 'a = { (HAN | "x" | "xy")+ }'], "alphabet": "x_1\u00e9\u4e00", "n": 3},
     "comment_only": {"grammars": ['COMMENT = _{ "#" ~ (!"!" ~ ANY)* ~ "!" }\na = { "x" ~ "y" }', 'COMMENT = _{ "#" ~ (!"!" ~ ANY)* ~ "!" }\nb = { "x" }\na = { b* ~ "y" }'], "alphabet": "xy#!", "n": 6},
     "atomic_visibility": {"grammars": ['d = { "y" }\nb = ${ d }\na = @{ "x" ~ b }', 'd = { "y" }\na = @{ "x" ~ d }'], "alphabet": "xy", "n": 2},
